@@ -760,3 +760,52 @@ def raise_after_effect(chk, pid):
     chk.ob("region.Region.scale::inplace::degenerate-refused", ok, f"{pid}.atomic",
            "a scale factor of zero produces zero edges: the copying form is refused by the constructor, the in-place form "
            "needs a refusal that depends on the factor / the scaled corners before it stores them", v.f, first)
+
+
+# ============================================================================ object-state purity of the whole API
+MUTATORS = {
+    "region.Region.__init__", "region.Region.scale", "region.Region.translate", "region.Region.rotate90",
+    "region.Region.dims.setter", "region.Region.units.setter", "region.Region.tolerance_factor.setter",
+    "mesh.Mesh.__init__", "mesh.Mesh.scale", "mesh.Mesh.translate", "mesh.Mesh.rotate90", "mesh.Mesh.bc.setter",
+    "mesh.Mesh.subregions.setter", "io._MeshIO.load_subregions",
+    "field.Field.__init__", "field.Field.update_field_values", "field.Field.rotate90", "field.Field.unit.setter",
+    "field.Field.vdims.setter", "field.Field.array.setter", "field.Field.norm.setter", "field.Field.valid.setter",
+    "field.Field.vdim_mapping.setter",
+}
+
+
+def api_purity(chk, pid):
+    """every method of Region / Mesh / Field that is not a constructor, setter or in-place transformer leaves the
+    object (and everything reachable from it) unwritten; in-place transformers write only inside `if inplace:`"""
+    from .c08 import write_effects
+    repo = chk.repo
+    chk.rule(f"{pid}.purity", "only constructors, setters, update_field_values, load_subregions and the in-place branch of the "
+                              "transforming methods may write memory reachable from self; every other method of Region, Mesh "
+                              "and Field (copying forms included) leaves the object untouched")
+    al, _ = cm.make_alias(repo)
+    n = 0
+    for cq in (REGION, MESH, FIELD):
+        for q in repo.mro(cq):
+            ci = repo.classes[q]
+            fs = list(ci.methods.values()) + list(ci.getters.values()) + list(ci.setters.values()) + list(ci.dispatch.values())
+            for fi in sorted(fs, key=lambda f: f.qual):
+                if fi.qual.startswith("field.Field._diff_old"):
+                    continue
+                v = FV(repo, fi.qual, param_types={"other": FIELD, "vector": FIELD})
+                effs = write_effects(v, al)
+                hits = [(st, what, sorted(x for x in roots if x.startswith("self")))
+                        for st, what, roots in effs if any(x.startswith("self") for x in roots)]
+                n += 1
+                if fi.qual in MUTATORS:
+                    if fi.qual in INPLACE:
+                        ifst = inplace_if(v)
+                        inside = set(id(s_) for s_ in walk_stmts(ifst.body))
+                        outside = [(st, what, r_) for st, what, r_ in hits if id(st) not in inside]
+                        chk.ob(f"{fi.qual}::writes-only-in-place", not outside, f"{pid}.purity",
+                               "; ".join(f"`{v.src(st)[:60]}` ({what}) writes {r_} outside the in-place branch" for st, what, r_ in outside[:2])
+                               or "self is written only inside `if inplace:`", fi, outside[0][0] if outside else None, nontrivial=False)
+                    continue
+                chk.ob(f"{fi.qual}::leaves-object-untouched", not hits, f"{pid}.purity",
+                       "; ".join(f"`{v.src(st)[:70]}` ({what}) writes {r_}" for st, what, r_ in hits[:2]) or "no write reaches self",
+                       fi, hits[0][0] if hits else None, nontrivial=False)
+    chk.require(n >= 120, f"{pid}.purity: only {n} methods analysed")
